@@ -329,6 +329,9 @@ func runC17(a vh.Args, o *vh.Oracle, r *vh.Result) error {
 	if err := c17Cancel(a, r, rng); err != nil {
 		return err
 	}
+	if err := c17Resource(a, r, rng); err != nil {
+		return err
+	}
 	return c17CLI(a, r, rng)
 }
 
